@@ -257,8 +257,14 @@ class HostWorld:
     executor class, stop, message bookkeeping - are the only things supplied).  Every message the connection commits is decoded by the
     repository's deserialize_host_msg and handled by the controller, in order, when `deliver()` is called."""
 
-    def __init__(self, ctx, hardware: str = "generic", qubits: int = 5, nv_compiler: bool = False, sc: Optional[C.Scenario] = None, meas_outcomes: Optional[List[int]] = None):
+    def __init__(self, ctx, hardware: str = "generic", qubits: int = 5, nv_compiler: bool = False, sc: Optional[C.Scenario] = None, meas_outcomes: Optional[List[int]] = None,
+                 epr: bool = False, bell_states: Optional[List[str]] = None):
         self.ctx, self.repo, self.ev = ctx, ctx.repo, ctx.ev
+        self.epr = epr
+        self.bell_states = list(bell_states or [])
+        self.requests: List[Any] = []       # what the executor put on the network stack, in order
+        self.to_deliver: List[Any] = []     # (request, pair number, directionality) not yet answered
+        self.remote_pending: List[Any] = []  # pairs the remote node will create once this node has asked to receive
         repo = self.repo
         self.sc = sc or scenario()
         self.trace: List[Tuple] = []
@@ -294,6 +300,13 @@ class HostWorld:
         kw: Dict[str, Any] = {"hardware_config": self.I.construct(hw_cls, [qubits], {}, None), "max_qubits": qubits}
         if nv_compiler:
             kw["compiler"] = ("class", repo.get_class("netqasm.sdk.transpile", "NVSubroutineTranspiler"))
+        self.epr_socket = None
+        # the names of the nodes of the (debug) network, as an application sets them before it connects
+        self.sc.__dict__.setdefault("class_attrs", {})[(self.dc.qualname, "node_ids")] = {"alice": 0, "bob": 1}
+        if epr:
+            es = repo.get_class("netqasm.sdk.epr_socket", "EPRSocket")
+            self.epr_socket = self.I.construct(es, ["bob"], {}, None)
+            kw["epr_sockets"] = [self.epr_socket]
         r_ = outcome(self.I.construct, self.dc, ["alice"], kw, None)
         if r_[0] != "ok":
             raise AnalysisError(f"DebugConnection('alice', {hardware}, {qubits} qubits) cannot be constructed: {r_}")
@@ -304,8 +317,70 @@ class HostWorld:
             flavour = self.I.construct(fl, [], {}, None)
         self.ctrl = self.I.construct(qn, [], {"name": self.I.getattr(self.conn, "node_name"), "flavour": flavour}, None)
         self.executor = self.ctrl.fields["_executor"]
+        self.executor.fields["node_id"] = 0   # (the base class leaves the node id to subclasses)
+        if epr:
+            self._attach_network()
         self.delivered = 0
         self.msgs_mod = repo.module("netqasm.backend.messages")
+
+    # -- the network stack -------------------------------------------------------------------------------------------------------
+    def _attach_network(self):
+        """The link layer, modelled: a request put on the stack is answered pair by pair while the executor waits (its `_do_wait` hook);
+        a keep-response carries the lowest physical qubit the executor has not marked in use, a Bell state from the script (PHI_PLUS by
+        default), the creator's side by its directionality flag."""
+        world = self
+        qcm = self.repo.module("netqasm.qlink_compat")
+
+        class Stack:
+            _nqsa_model = True
+
+            def put(self, request=None, *a_, **k_):
+                req = request if request is not None else (a_[0] if a_ else None)
+                world.requests.append(req)
+                number = getattr(req, "number", None)
+                if number is not None:            # a create request: this node is the creator
+                    world.to_deliver.extend((req, k, 0) for k in range(number))
+                else:                             # a receive request: what the remote node creates can arrive from now on
+                    world.to_deliver.extend(world.remote_pending)
+                    world.remote_pending = []
+                return None
+
+            def setup_epr_socket(self, *a_, **k_):
+                return None
+
+            def get_purpose_id(self, remote_node_id=None, epr_socket_id=None, *a_, **k_):
+                return 0
+
+        self.stack = Stack()
+        self.executor.fields["_network_stack"] = self.stack
+        nt = self.I.global_name("LinkLayerOKTypeK", qcm)
+        if not isinstance(nt, C.NamedTupleModel):
+            raise AnalysisError("qlink_compat.LinkLayerOKTypeK is not a namedtuple class")
+        rt, bs = qcm.classes["ReturnType"], qcm.classes["BellState"]
+
+        def do_wait(o_, *a_, **k_):
+            if world.remote_pending and any(v_ for v_ in (o_.fields.get("_epr_recv_requests") or {}).values()):
+                # the executor has asked to receive: what the remote node creates can arrive from now on
+                world.to_deliver.extend(world.remote_pending)
+                world.remote_pending = []
+            if not world.to_deliver:
+                raise C.EvalRaise("Deadlock", "the executor waits for entanglement nobody will deliver")
+            req, k, flag = world.to_deliver.pop(0)
+            used = set(o_.fields.get("_used_physical_qubit_addresses", set()))
+            phys = next(i_ for i_ in range(64) if i_ not in used)
+            bell = world.bell_states.pop(0) if world.bell_states else "PHI_PLUS"
+            resp = nt(type=EnumMember(rt.qualname, "OK_K", world.ev.enum_members(rt)["OK_K"]), create_id=len(world.requests), logical_qubit_id=phys, directionality_flag=flag,
+                      sequence_number=k, purpose_id=getattr(req, "purpose_id", 0), remote_node_id=getattr(req, "remote_node_id", 1), goodness=1, goodness_time=0,
+                      bell_state=EnumMember(bs.qualname, bell, world.ev.enum_members(bs)[bell]))
+            world.I.method(o_, "_handle_epr_response", [resp], {}, None)
+            return None
+
+        self.sc.method_overrides["_do_wait"] = do_wait
+
+    def expect_remote_pairs(self, number: int):
+        """the remote node creates `number` pairs towards this one (answers a recv request)"""
+        req = type("RemoteCreate", (), {"purpose_id": 0, "remote_node_id": 1})()
+        self.remote_pending.extend((req, k, 1) for k in range(number))
 
     # -- host side -------------------------------------------------------------------------------------------------------------
     def new_qubit(self):
